@@ -38,7 +38,17 @@ func (x *execCtx) execDDL(st Stmt) error {
 			}
 			return pgErr("42P07", "relation %q already exists", d.Name)
 		}
-		sc.Seqs[d.Name] = &Sequence{Schema: sc.Name, Name: d.Name, Last: 1}
+		q := &Sequence{Schema: sc.Name, Name: d.Name, Last: 1, Increment: 1, Cache: 1}
+		if d.Start != 0 {
+			q.Last = d.Start
+		}
+		if d.Increment != 0 {
+			q.Increment = d.Increment
+		}
+		if d.Cache != 0 {
+			q.Cache = d.Cache
+		}
+		sc.Seqs[d.Name] = q
 		s.pushUndo(func() { delete(sc.Seqs, d.Name) })
 		return nil
 	case *CreateFunction:
@@ -256,7 +266,7 @@ func (x *execCtx) columnFromDef(t *Table, cd ColDef) (*Column, error) {
 		for i := 1; sc.Seqs[seqName] != nil; i++ {
 			seqName = fmt.Sprintf("%s_%s_seq%d", t.Name, cd.Name, i)
 		}
-		sc.Seqs[seqName] = &Sequence{Schema: sc.Name, Name: seqName, Last: 1}
+		sc.Seqs[seqName] = &Sequence{Schema: sc.Name, Name: seqName, Last: 1, Increment: 1, Cache: 1}
 		sn := seqName
 		s.pushUndo(func() { delete(sc.Seqs, sn) })
 		c.Default = &FuncX{Name: "nextval", Args: []Expr{&Lit{V: Unk(fmt.Sprintf("%q.%q", sc.Name, seqName))}}, ArgNames: []string{""}}
